@@ -215,7 +215,8 @@ def check_script(acc, case):
     def on_request(entry):
         world._on_request(entry)
         if entry[1].startswith('set_'):
-            marks.append(len(buffer.getvalue()))
+            # what has reached standard output, not what sits in its buffer
+            marks.append(buffer.committed)
     world.lan.on_request = on_request
     job = world.compile(text)
     if job.program is None:
